@@ -574,7 +574,13 @@ impl Gen {
                 8 => 3 * par + rng.below(6) as usize,
                 _ => rng.range(0, 12) as usize,
             };
-            c.min(maxn)
+            // now and then a long batch: a fast path that only exists above some size (64, 128, 256 blocks ...)
+            if rng.chance(1, 24) {
+                let big = *rng.pick(&[31usize, 32, 33, 63, 64, 65, 127, 128, 129, 200, 254]);
+                big.min(maxn)
+            } else {
+                c.min(maxn)
+            }
         };
         let len = n * bs;
         let same = if shape.in_place_only() {
